@@ -8,8 +8,8 @@ SD = os.path.join(vlib.SPEC, 'sync')
 QRW_OPS = {'lockW': 'lock', 'lockR': 'lock_shared', 'tryW': 'try_lock', 'tryR': 'try_lock_shared', 'up': 'upgrade', 'down': 'downgrade', 'rel': 'rel'}
 
 # (lock, module, cfg, projected vars, programs (harness op names), map lines)
-STD_MAP = ['Loop 0', 'UP_chk 0', 'Fin 0']
-QRW_MAP = ['Loop 0', 'Loop@lock 5', 'Loop@lock_shared 5', 'T1 6', 'D2 2', 'Fin 0', 'Fin2 0', 'Rr23 0', 'U9x 0', 'U29x 0', 'OPEND:Fin2 0']
+STD_MAP = ['Loop 0', 'UP_chk 0', 'Fin 1']       # Fin: the harness-level schedule point that ends every operation (a held lock spans it)
+QRW_MAP = ['Loop 0', 'Loop@lock 5', 'Loop@lock_shared 5', 'T1 6', 'D2 2', 'Fin 0', 'Fin2 1', 'Rr23 0', 'U9x 0', 'U29x 0', 'OPEND:Fin2 0']
 QRW_VARS = ['tailp', 'tailf', 'prevp', 'prevf', 'nextp', 'nextf', 'st', 'going', 'il']
 
 
@@ -23,6 +23,8 @@ REPLAYS = {
         ('queuing_mutex', 'MCQueuingMutex', 'QueuingMutex_3.cfg', ['tail', 'next', 'going'], ['lock,rel,try_lock,rel', 'lock,rel', 'lock,rel'], STD_MAP),
         ('spin_rw_mutex', 'MCSpinRW', 'SpinRW_Up.cfg', ['m'], ['lock_shared,upgrade,rel', 'lock_shared,upgrade,rel', 'lock,rel'], STD_MAP),
         ('spin_rw_mutex', 'MCSpinRW', 'SpinRW_Try.cfg', ['m'], ['try_lock,downgrade,rel', 'try_lock_shared,upgrade,rel', 'lock,downgrade,rel'], STD_MAP),
+        ('spin_rw_mutex', 'MCSpinRW', 'SpinRW_TryA.cfg', ['m'], ['try_lock_shared,rel', 'try_lock_shared,rel', 'lock,rel'], STD_MAP),
+        ('spin_rw_mutex', 'MCSpinRW', 'SpinRW_TryB.cfg', ['m'], ['lock_shared,upgrade,rel', 'try_lock_shared,rel', 'try_lock_shared,rel'], STD_MAP),
         ('queuing_rw_mutex', 'MCQueuingRW', 'QueuingRW_PU2.cfg', QRW_VARS, qrw([['lockR', 'up', 'rel'], ['lockR', 'up', 'rel']]), QRW_MAP),
         ('queuing_rw_mutex', 'MCQueuingRW', 'QueuingRW_PF2.cfg', QRW_VARS, qrw([['lockW', 'rel'], ['lockW', 'rel'], ['lockR', 'rel']]), QRW_MAP),
     ],
